@@ -94,6 +94,18 @@ fn main() {
         machinery_failure(&format!("rfcref self-test: {}", e));
     }
 
+    // watchdog: a library call that never returns (e.g. a lost wake-up between threads sharing the plan cache)
+    // must end the run as a machinery failure instead of hanging the caller for ever
+    {
+        let cap: u64 = std::env::var("VERIF_WALL_CAP_S").ok().and_then(|v| v.parse().ok()).unwrap_or(if tier == Tier::Quick { 1200 } else { 6 * 3600 });
+        let idc = id.clone();
+        std::thread::spawn(move || {
+            std::thread::sleep(std::time::Duration::from_secs(cap));
+            println!("MACHINERY-FAILURE: {} did not finish within the wall-clock cap of {} s (VERIF_WALL_CAP_S); a library call may be hanging", idc, cap);
+            std::process::exit(2);
+        });
+    }
+
     let (run, rep): (fn(&Ctx) -> i32, ReplayFn) = match id.as_str() {
         "C01" => (c01::run, c01::replay),
         "C02" => (c02::run, c02::replay),
